@@ -230,7 +230,7 @@ def grazing_geometry(rng):
 
 
 def arim_path(geom, arim, physical=False, attenuation=None, decoy=None, rigid=None, spin=None, crowd=None, int_source=False,
-              from_end=False):
+              from_end=False, broadcast_frames=False):
     """One-point Interfaces, Path and Rays for the traced ray (real arim objects).
     physical=True (immersion geometries only): couplant/block Materials, L/T modes and
     interface kinds / transmission-reflection flags as block_in_immersion builds them, so that
@@ -294,6 +294,10 @@ def arim_path(geom, arim, physical=False, attenuation=None, decoy=None, rigid=No
             else:
                 kwargs.update(kind="solid_fluid", transmission_reflection="reflection",
                               reflection_against=_couplant(geom, arim, attenuation))
+        if broadcast_frames and (crowd is None or not (0 < i < npts - 1)):
+            # one frame shared by all the points of the interface, stored as a stride-0 broadcast view (np.broadcast_to): same values
+            bc0_ = np.array(np.asarray(basis.coords).reshape(-1, 3, 3)[0])
+            basis = g.Points(np.broadcast_to(bc0_, np.asarray(basis.coords).shape), basis.name)
         interfaces.append(arim.Interface(points, basis, **kwargs))
     if physical:
         couplant, block = _couplant(geom, arim, attenuation), _block(geom, arim, attenuation)
